@@ -136,4 +136,121 @@ MUTANTS = [
      "expect": [("C09", "C09|R3")]},
 ]
 
+MUTANTS += [
+    {"name": "c06-open-blob-for-write",
+     "edits": [("src/cas_manager.rs",
+                """        let file = File::open(&cas_path).map_err(|e| CasManagerError::FileOperation {
+            operation: CasIoOperation::OpenBuffered,""",
+                """        let file = std::fs::OpenOptions::new().read(true).write(true).open(&cas_path).map_err(|e| CasManagerError::FileOperation {
+            operation: CasIoOperation::OpenBuffered,""")],
+     "expect": [("C06", "C06|R1")]},
+    {"name": "c06-skip-flush-into-parts",
+     "edits": [("src/transaction.rs",
+                """        let file_to_sync = self.writer.into_inner().map_err(|e| crate::LibError::Io {
+            operation: LibIoOperation::CommitFlushWriter,
+            path: None,
+            source: e.into_error(),
+        })?;""",
+                """        let (file_to_sync, _unflushed) = self.writer.into_parts();
+        let _ = LibIoOperation::CommitFlushWriter;""")],
+     "expect": [("C06", "C06|R3"), ("C09", "C09|R1")]},
+    {"name": "c06-reserve-final-path",
+     "edits": [("src/cas_manager.rs",
+                """        match std::fs::rename(staging_path, &final_cas_path) {""",
+                """        let _reserve = File::create(&final_cas_path);
+        match std::fs::rename(staging_path, &final_cas_path) {""")],
+     "expect": [("C06", "C06|R1")]},
+    {"name": "c06-hash-of-key",
+     "edits": [("src/transaction.rs",
+                """        let blob_hash = BlobHash::from_bytes(*self.hasher.finalize().as_bytes());""",
+                """        let blob_hash = BlobHash::from_bytes(*blake3::hash(&self.key.to_key_bytes_owned()).as_bytes());""")],
+     "expect": [("C06", "C06|R4")]},
+    {"name": "c11-lock-after-index-load",
+     "edits": [("src/cas.rs",
+                """        lockfile.try_lock().map_err(|_e| LibError::AlreadyOpened)?;
+
+""", ""),
+               ("src/cas.rs",
+                """        let index = Index::load(db_root, config.clone()).map_err(LibError::Index)?;
+""",
+                """        let index = Index::load(db_root, config.clone()).map_err(LibError::Index)?;
+        lockfile.try_lock().map_err(|_e| LibError::AlreadyOpened)?;
+""")],
+     "expect": [("C11", "C11|R1")]},
+    {"name": "c11-blocking-lock",
+     "edits": [("src/cas.rs",
+                """        lockfile.try_lock().map_err(|_e| LibError::AlreadyOpened)?;""",
+                """        lockfile.lock().map_err(|_e| LibError::AlreadyOpened)?;""")],
+     "expect": [("C11", "C11|R3")]},
+    {"name": "c11-ignore-lock-failure",
+     "edits": [("src/cas.rs",
+                """        lockfile.try_lock().map_err(|_e| LibError::AlreadyOpened)?;""",
+                """        if lockfile.try_lock().is_err() {
+            tracing::warn!("database directory is in use");
+        }""")],
+     "expect": [("C11", "C11|R1")]},
+    {"name": "c11-store-unlocked-handle",
+     "edits": [("src/cas.rs",
+                """        Ok(Self { paths, index, cas_manager, _lockfile: lockfile, datasync_channel })""",
+                """        let keep = std::fs::File::open(paths.lockfile_path()).map_err(|e| LibError::Io {
+            operation: LibIoOperation::CreateLockFile,
+            path: None,
+            source: e,
+        })?;
+        Ok(Self { paths, index, cas_manager, _lockfile: keep, datasync_channel })""")],
+     "expect": [("C11", "C11|R4")]},
+    {"name": "c13-write-takes-intents-lock",
+     "edits": [("src/transaction.rs",
+                """        self.size += data.len() as u64;""",
+                """        let _g = self.cas_inner.index.pending_intents.lock();
+        self.size += data.len() as u64;""")],
+     "expect": [("C13", "C13|R1")]},
+    {"name": "c13-new-touches-cas",
+     "edits": [("src/transaction.rs",
+                """        let staging_dir = cas_inner.paths.staging_root_path();
+""",
+                """        let staging_dir = cas_inner.paths.cas_root_path();
+""")],
+     "expect": [("C13", "C13|R1"), ("C06", "C06|")]},
+    {"name": "c19-index-load-before-validation",
+     "edits": [("src/cas.rs",
+                """        let index = Index::load(db_root, config.clone()).map_err(LibError::Index)?;
+""", ""),
+               ("src/cas.rs",
+                """        // Load or create settings
+""",
+                """        let index = Index::load(db_root, config.clone()).map_err(LibError::Index)?;
+        // Load or create settings
+""")],
+     "expect": [("C19", "C19|R1")]},
+    {"name": "c19-future-versions-only",
+     "edits": [("src/settings.rs",
+                """                if settings.version != CURRENT_DB_VERSION {""",
+                """                if settings.version > CURRENT_DB_VERSION {""")],
+     "expect": [("C19", "C19|R3")]},
+    {"name": "c19-config-flag-wins",
+     "edits": [("src/cas.rs",
+                """        let cas_manager = Arc::new(CasManager::new(paths.clone(), dir_tree_is_pre_created));""",
+                """        let _ = dir_tree_is_pre_created;
+        let cas_manager = Arc::new(CasManager::new(paths.clone(), config.pre_create_cas_dirs));""")],
+     "expect": [("C19", "C19|R4")]},
+    {"name": "c19-always-save-settings",
+     "edits": [("src/cas.rs",
+                """        let cas_manager = Arc::new(CasManager::new(paths.clone(), dir_tree_is_pre_created));""",
+                """        settings_persister
+            .save(&DbSettings {
+                version: settings::CURRENT_DB_VERSION,
+                dir_tree_is_pre_created,
+                num_ops_per_wal: config.num_ops_per_wal,
+            })
+            .map_err(LibError::Settings)?;
+        let cas_manager = Arc::new(CasManager::new(paths.clone(), dir_tree_is_pre_created));""")],
+     "expect": [("C19", "C19|R5")]},
+    {"name": "c19-no-compare",
+     "edits": [("src/cas.rs",
+                """                if existing_settings.num_ops_per_wal != config.num_ops_per_wal {""",
+                """                if existing_settings.num_ops_per_wal > config.num_ops_per_wal {""")],
+     "expect": [("C19", "C19|R1")]},
+]
+
 BENIGN = []
